@@ -17,7 +17,7 @@ clean)
   for p in $ALL; do ./check $p --tier $tier >/dev/null 2>&1; c=$?; echo "clean $p exit=$c"; [ $c = 0 ] || fail=1; done;;
 benign)
   for d in selftest/benign/*.diff; do
-    git -C /repo apply "$d" || { echo "cannot apply $d"; fail=1; continue; }
+    git -C /repo apply "$PWD/$d" || { echo "cannot apply $d"; fail=1; continue; }
     for p in $ALL; do
       out=$(./check $p --tier $tier 2>&1); c=$?
       echo "benign $(basename $d .diff) $p exit=$c"
@@ -33,7 +33,7 @@ import json;m=json.load(open('$d/meta.json'))
 det=m.get('detected_by') or {}
 ps=sorted({k.split(':')[0] for k,v in det.items() if v['exit']==1}) or [m['property']]
 print(' '.join(ps))")
-    git -C /repo apply "$d/patch.diff" || { echo "cannot apply $n"; fail=1; continue; }
+    git -C /repo apply "$PWD/$d/patch.diff" || { echo "cannot apply $n"; fail=1; continue; }
     for p in $props; do
       timeout 1200 ./check $p --tier $tier >/dev/null 2>&1; c=$?
       echo "seed $n $p exit=$c"; [ $c = 1 ] || fail=1
